@@ -4,6 +4,7 @@ from fractions import Fraction
 sys.path.insert(0, os.path.dirname(os.path.dirname(os.path.abspath(__file__))))
 from lib.common import *
 
+from props import consts_common
 ID = "C12"
 COQ_TARGETS = ["Run/Run_FD.vo"]
 META = {
@@ -753,6 +754,11 @@ def run(ctx):
            "real_detector_in_cluster_state": fcov,
            "monitor": {"histories": n_hist, "failures": len(mon_fail),
                        "predicate": "mean of the last min(len,n) samples of bootstrap::differences recomputed from the raw arrival list (fractions); level == silence/mean within 1e-9; 0 at an arrival; accuracy and completeness at threshold 20; equal levels for histories sharing the last n+1 arrivals"}}
+    # translator half of the tie: the constants of the current source, regenerated; the theorems on them re-checked
+    ccov, cviol = consts_common.regen(ctx, ID, binary)
+    cov["source_constants"] = ccov
+    if cviol and not any(v.get("found_input") for v in violations):
+        violations.append(cviol)
     return {"coverage": cov, "violations": violations, "known": known}
 
 
